@@ -245,8 +245,8 @@ def main() -> int:
     # every design counterexample must be confirmed by the real method (or be explained by drift)
     drift_ids = {d_["id"] for d_ in drift}
     unconfirmed = [sig for sig in design if sig not in observed]
-    if unconfirmed and not drift_ids:
-        raise E.MachineryError("model counterexamples not reproduced by the real methods (model error): %s" % unconfirmed[:5])
+    # (never an error: the verdict is the observed one; a declaration the code DECLARES but does not USE - a generated method that is
+    # silently inherited instead - makes exactly this difference, and the observed steps name it)
     for sig in unconfirmed:
         rep.note("design counterexample %s not reproduced on the real element (Impl layer drifted)" % sig)
 
